@@ -430,16 +430,24 @@ def _is_localhost(hostname: str) -> bool:
     return hostname in ("localhost", "127.0.0.1", "[::1]")
 
 
+_DEFAULT_PORTS = {"http": 80, "https": 443}
+
 # Default origins allowed for _vgi_return_to redirects.
 _DEFAULT_ALLOWED_RETURN_ORIGINS: frozenset[str] = frozenset(("https://cupola.query-farm.services",))
+
+
+def _effective_port(scheme: str, port: int | None) -> int | None:
+    """Return *port*, or the default port of an http(s) *scheme* when it is absent."""
+    return port if port is not None else _DEFAULT_PORTS.get(scheme)
 
 
 def _validate_return_to(url: str, allowed_origins: frozenset[str] = frozenset()) -> str:
     """Validate an external return-to URL against an origin allowlist.
 
     Returns the URL if it matches an allowed origin or is localhost,
-    otherwise returns empty string.  Only the scheme and host (ignoring
-    port for localhost) are checked — any path is permitted.
+    otherwise returns empty string.  The scheme, host and port (ignoring
+    port for localhost) are checked — any path is permitted.  An allowlist
+    entry without a port stands for the scheme's default port.
     """
     if not url or len(url) > 2048:
         return ""
@@ -454,14 +462,15 @@ def _validate_return_to(url: str, allowed_origins: frozenset[str] = frozenset())
     hostname = parsed.hostname or ""
     if _is_localhost(hostname) and parsed.scheme == "http":
         return url
-    # Check against allowlist (scheme + host, ignoring path)
-    origin = f"{parsed.scheme}://{parsed.hostname}"
-    if origin in allowed_origins:
-        return url
-    # Also try with explicit port
-    if parsed.port:
-        origin_with_port = f"{parsed.scheme}://{parsed.hostname}:{parsed.port}"
-        if origin_with_port in allowed_origins:
+    # Check against allowlist (scheme + host + effective port, ignoring path)
+    target = (parsed.scheme, hostname, _effective_port(parsed.scheme, parsed.port))
+    for allowed in allowed_origins:
+        try:
+            entry = urlparse(allowed)
+            entry_origin = (entry.scheme, entry.hostname or "", _effective_port(entry.scheme, entry.port))
+        except ValueError:
+            continue  # an unparseable allowlist entry matches nothing
+        if entry.hostname and entry_origin == target:
             return url
     return ""
 
